@@ -407,6 +407,13 @@ func selftest(what string) int {
 			fmt.Println(l)
 		}
 		return 0
+	case "c04-sensitivity":
+		out, err := convsim.SelftestC04Sensitivity(seed(), repoDir())
+		fmt.Println(out)
+		if err != nil {
+			infra(err)
+		}
+		return 0
 	case "determinism":
 		return selftestDeterminism()
 	}
